@@ -94,6 +94,10 @@ def instances(formulas, seeds=(), rounds=3):
         scan([s])
     ax.append(EXP(z3.RealVal(0)) == 1)
     ax.append(LOG(z3.RealVal(1)) == 0)
+    if exps or logs:
+        e0, l1 = EXP(z3.RealVal(0)), LOG(z3.RealVal(1))
+        exps[e0.get_id()] = e0          # so that monotonicity relates every exp term to exp(0) = 1
+        logs[l1.get_id()] = l1
     for _ in range(rounds):
         new = []
         for i, e in list(exps.items()):
